@@ -3,6 +3,7 @@ use crate::report::{CheckOutput, Ctx};
 pub mod c01;
 pub mod c02;
 pub mod c09;
+pub mod c10;
 pub mod c12;
 pub mod common;
 
@@ -11,6 +12,7 @@ pub fn run(ctx: &Ctx) -> Option<CheckOutput> {
 		"C01" => c01::run(ctx),
 		"C02" => c02::run(ctx),
 		"C09" => c09::run(ctx),
+		"C10" => c10::run(ctx),
 		"C12" => c12::run(ctx),
 		_ => return None,
 	})
@@ -33,6 +35,7 @@ pub fn replay_file(path: &str) -> i32 {
 			"C01" => c01::replay(case),
 			"C02" => c02::replay(case),
 			"C09" => c09::replay(case),
+			"C10" => c10::replay(case),
 			"C12" => c12::replay(case),
 			_ => Some(format!("no replayer for {prop}")),
 		}
